@@ -1619,7 +1619,11 @@ func (a *Authenticator) negotiateSecurity(negotiation *SecurityNegotiation) erro
 	negotiation.NegotiatedAuth = AuthNone
 	for _, serverAuth := range negotiation.ServerConfig.AuthMethods {
 		for _, clientAuth := range negotiation.ClientConfig.AuthMethods {
-			if serverAuth == clientAuth {
+			// Only a method this build can actually run counts as mutually
+			// usable: a shared but unimplemented (PASSWORD) or unknown name must
+			// not turn a PREFERRED/PREFERRED negotiation into a failed
+			// authentication, nor keep a REQUIRED one from being denied up front.
+			if serverAuth == clientAuth && serverAuth.Implemented() && authMethodToBitmask(serverAuth) != 0 {
 				negotiation.NegotiatedAuth = serverAuth
 				break
 			}
